@@ -238,8 +238,8 @@ def run_item(item):
     def body(st):
         fn(st, **params)
     ex = Explorer(body, max_seconds=item.get("budget_s"), timeout_ms=item.get("timeout_ms", 60000),
-                  prefix_roots=item.get("roots"), defer_depth=item.get("defer_depth") if os.environ.get("PYSX_FORK", "0") != "1" else None)
-    ex.blob_hooks.append(ColHook())
+                  prefix_roots=item.get("roots"), defer_depth=item.get("defer_depth"),
+                  yield_after=item.get("yield_s", float(os.environ.get("PYSX_YIELD_S", "15"))))
     err = None
     stopped = False
 
@@ -266,7 +266,7 @@ def run_item(item):
         "n_mismatch": len(c.mismatch) + getattr(c, "n_mismatch_extra", 0), "violations": c.violations, "spurious": c.spurious,
         "inconclusive": (ex.inconclusive + c.inconclusive)[:20],
         "n_inconclusive": ex.n_inconclusive + len(c.inconclusive) + getattr(c, "n_inconclusive_extra", 0),
-        "forks": ex.n_forks, "child_crashes": ex.stats.child_crashes,
+
         "truncated": ex.truncated, "stopped": stopped, "error": err, "samples": c.samples,
         "labels": c.labels, "known_hits": c.known_hits,
         "deferred": ex.deferred,
@@ -367,20 +367,28 @@ def main_check(pid, modname, tier, seed):
         it["pid"] = pid
     jobs = int(os.environ.get("VERIF_JOBS", "0")) or None
     results = run_items(items, jobs)
-    # items split by decision prefix: explore the deferred sub-trees as separate items
-    sub = []
-    for it, r in zip(items, results):
-        roots = r.get("deferred") or []
-        if roots:
-            per = max(1, len(roots) // 64)
-            for i in range(0, len(roots), per):
-                s_it = dict(it)
-                s_it.pop("defer_depth", None)
-                s_it["roots"] = roots[i:i + per]
-                s_it["name"] = "%s [subtree %d]" % (it.get("name", ""), i // per)
-                sub.append(s_it)
-    if sub:
-        results = results + run_items(sub, jobs)
+    # work sharing: sub-trees handed back (split depth reached / item ran longer than its
+    # slice) are explored as separate items, repeatedly until nothing is handed back
+    pending = list(zip(items, results))
+    rounds = 0
+    while True:
+        sub = []
+        for it, r in pending:
+            roots = r.get("deferred") or []
+            if roots:
+                per = max(1, len(roots) // 64)
+                for i in range(0, len(roots), per):
+                    s_it = dict(it)
+                    s_it.pop("defer_depth", None)
+                    s_it["roots"] = roots[i:i + per]
+                    s_it["name"] = "%s [subtree %d.%d]" % (it.get("name", "").split(" [subtree")[0], rounds, i // per)
+                    sub.append(s_it)
+        if not sub:
+            break
+        sub_results = run_items(sub, jobs)
+        results = results + sub_results
+        pending = list(zip(sub, sub_results))
+        rounds += 1
     # --- known findings: replay witnesses natively
     known = load_known(pid)
     known_lines = []
